@@ -10,6 +10,7 @@
   instances are checked by `#guard` tests in Props/C14.lean.
 -/
 import Lungo.Model.Project
+import Lungo.Proofs.CompareLaws
 namespace Lungo
 
 /-- the state after registering overlay `x` at `path` (Go: `state.overlay(path, x)`) -/
@@ -243,5 +244,429 @@ theorem projectElemMatch_nonarray (sch : SchemaEval) (s : PState) (d : Doc) (pat
 theorem projectElemMatch_nondoc (sch : SchemaEval) (s : PState) (d : Doc) (path : String) (v : V)
     (hv : ∀ q, v ≠ .doc q) : projectElemMatch sch s d path v = .error .err := by
   cases v <;> simp_all [projectElemMatch]
+
+/-! ## §3 the processing loop -/
+
+/-- the meaning of a projection flag: a boolean, or a number (of any numeric type) equal to 1 / 0 -/
+def flagOf (v : V) : Option Bool :=
+  match v with
+  | .bool b => some b
+  | _ => if V.cmp v (.i64 1) == .eq then some true
+         else if V.cmp v (.i64 0) == .eq then some false else none
+
+/-- registering a flag -/
+def flagStep (s : PState) (path : String) (b : Bool) : PState :=
+  if b then { s with includes := s.includes ++ [path] }
+  else if path == "_id" then { s with hideID := true }
+  else { s with excludes := s.excludes ++ [path] }
+
+theorem projectCondition_eq (s : PState) (path : String) (v : V) :
+    projectCondition s path v = match flagOf v with
+      | some b => .ok (flagStep s path b)
+      | none => .error .err := by
+  cases v with
+  | bool b => cases b <;> simp only [projectCondition, flagOf, flagStep] <;> simp <;> split <;> rfl
+  | _ =>
+    simp only [projectCondition, flagOf]
+    generalize V.cmp _ (V.i64 1) = c1
+    generalize V.cmp _ (V.i64 0) = c0
+    cases c1 <;> cases c0 <;> simp [flagStep] <;> split <;> rfl
+
+theorem flagOf_doc (fs : List (String × V)) : flagOf (.doc fs) = none := by
+  have h1 : V.cmp (.doc fs) (.i64 1) = .gt := V.cmp_of_rank_gt (by simp [V.cls, Class.rank])
+  have h0 : V.cmp (.doc fs) (.i64 0) = .gt := V.cmp_of_rank_gt (by simp [V.cls, Class.rank])
+  simp [flagOf, h1, h0]
+
+/-- one entry of the projection document (the loop body of `Process` in the projection context) -/
+def projEntry (sch : SchemaEval) (s : PState) (d : Doc) (key : String) (value : V) : Res PState :=
+  if isOpKey key then .error .err
+  else match value with
+    | .doc ((k0, v0) :: exps) =>
+      if isOpKey k0 then projOps sch s d key ((k0, v0) :: exps)
+      else projectCondition s key value
+    | _ => projectCondition s key value
+
+theorem projProcess_nil (sch : SchemaEval) (s : PState) (d : Doc) : projProcess sch s d [] = .ok s := rfl
+
+theorem projProcess_cons (sch : SchemaEval) (s : PState) (d : Doc) (key : String) (value : V)
+    (r : List (String × V)) :
+    projProcess sch s d ((key, value) :: r) =
+      match projEntry sch s d key value with
+      | .error e => .error e
+      | .ok s' => projProcess sch s' d r := rfl
+
+/-- a flag entry is handled by `projectCondition` -/
+theorem projEntry_flag (sch : SchemaEval) (s : PState) (d : Doc) (key : String) (value : V) (b : Bool)
+    (hk : isOpKey key = false) (hf : flagOf value = some b) :
+    projEntry sch s d key value = .ok (flagStep s key b) := by
+  have : projEntry sch s d key value = projectCondition s key value := by
+    simp only [projEntry, hk, Bool.false_eq_true, ↓reduceIte]
+    split
+    · next k0 v0 exps => rw [flagOf_doc] at hf; cases hf
+    · rfl
+  rw [this, projectCondition_eq, hf]
+
+/-- the state only grows: earlier registrations stay, in place -/
+structure PState.le (s s' : PState) : Prop where
+  inc : s.includes <+: s'.includes
+  exc : s.excludes <+: s'.excludes
+  hide : s.hideID = true → s'.hideID = true
+
+theorem PState.le_refl (s : PState) : s.le s := ⟨List.prefix_refl _, List.prefix_refl _, id⟩
+theorem PState.le_trans {a b c : PState} (h1 : a.le b) (h2 : b.le c) : a.le c :=
+  ⟨h1.inc.trans h2.inc, h1.exc.trans h2.exc, fun h => h2.hide (h1.hide h)⟩
+
+theorem flagStep_le (s : PState) (path : String) (b : Bool) : s.le (flagStep s path b) := by
+  simp only [flagStep]
+  split
+  · exact ⟨List.prefix_append _ _, List.prefix_refl _, id⟩
+  · split
+    · exact ⟨List.prefix_refl _, List.prefix_refl _, fun _ => rfl⟩
+    · exact ⟨List.prefix_refl _, List.prefix_append _ _, id⟩
+
+theorem projectCondition_le {s s' : PState} {path : String} {v : V}
+    (h : projectCondition s path v = .ok s') : s.le s' := by
+  rw [projectCondition_eq] at h
+  split at h
+  · cases h; exact flagStep_le _ _ _
+  · cases h
+
+theorem projectSlice_le {s s' : PState} {d : Doc} {path : String} {v : V}
+    (h : projectSlice s d path v = .ok s') : s.le s' := by
+  simp only [projectSlice] at h
+  split at h
+  · cases h
+  · split at h
+    · (repeat' split at h) <;> cases h <;> exact ⟨List.prefix_refl _, List.prefix_refl _, id⟩
+    · cases h; exact PState.le_refl _
+
+theorem projectElemMatch_le {sch : SchemaEval} {s s' : PState} {d : Doc} {path : String} {v : V}
+    (h : projectElemMatch sch s d path v = .ok s') : s.le s' ∧ path ∈ s'.includes := by
+  simp only [projectElemMatch] at h
+  (repeat' split at h) <;> cases h <;>
+    exact ⟨⟨List.prefix_append _ _, List.prefix_refl _, id⟩, by simp⟩
+
+theorem projOp_le {sch : SchemaEval} {s s' : PState} {d : Doc} {op path : String} {v : V}
+    (h : projOp sch s d op path v = .ok s') : s.le s' := by
+  simp only [projOp] at h
+  split at h
+  · exact projectCondition_le h
+  · split at h
+    · exact projectSlice_le h
+    · split at h
+      · exact (projectElemMatch_le h).1
+      · cases h
+
+theorem projOps_le {sch : SchemaEval} {d : Doc} {path : String} (ops : List (String × V)) :
+    ∀ {s s' : PState}, projOps sch s d path ops = .ok s' → s.le s' := by
+  induction ops with
+  | nil => intro s s' h; simp only [projOps] at h; cases h; exact PState.le_refl _
+  | cons kv r ih =>
+    obtain ⟨k, v⟩ := kv
+    intro s s' h
+    simp only [projOps] at h
+    split at h
+    · cases h
+    · split at h
+      · cases h
+      · next s1 h1 => exact PState.le_trans (projOp_le h1) (ih h)
+
+theorem projEntry_le {sch : SchemaEval} {s s' : PState} {d : Doc} {key : String} {value : V}
+    (h : projEntry sch s d key value = .ok s') : s.le s' := by
+  simp only [projEntry] at h
+  split at h
+  · cases h
+  · split at h
+    · split at h
+      · exact projOps_le _ h
+      · exact projectCondition_le h
+    · exact projectCondition_le h
+
+theorem projProcess_le {sch : SchemaEval} {d : Doc} (proj : List (String × V)) :
+    ∀ {s s' : PState}, projProcess sch s d proj = .ok s' → s.le s' := by
+  induction proj with
+  | nil => intro s s' h; cases h; exact PState.le_refl _
+  | cons kv r ih =>
+    obtain ⟨k, v⟩ := kv
+    intro s s' h
+    rw [projProcess_cons] at h
+    split at h
+    · cases h
+    · next s1 h1 => exact PState.le_trans (projEntry_le h1) (ih h)
+
+/-- an accepted projection has no operator key at top level -/
+theorem projProcess_keys {sch : SchemaEval} {d : Doc} (proj : List (String × V)) :
+    ∀ {s s' : PState}, projProcess sch s d proj = .ok s' → ∀ kv ∈ proj, isOpKey kv.1 = false := by
+  induction proj with
+  | nil => intro _ _ _ kv hkv; simp at hkv
+  | cons kv r ih =>
+    obtain ⟨k, v⟩ := kv
+    intro s s' h kv' hkv'
+    rw [projProcess_cons] at h
+    split at h
+    · cases h
+    · next s1 h1 =>
+      rcases List.mem_cons.mp hkv' with rfl | hm
+      · simp only [projEntry] at h1
+        split at h1
+        · cases h1
+        · next hk => simpa using hk
+      · exact ih h kv' hm
+
+/-- every flag of an accepted projection is registered -/
+theorem projProcess_registers {sch : SchemaEval} {d : Doc} (proj : List (String × V)) :
+    ∀ {s s' : PState}, projProcess sch s d proj = .ok s' → ∀ p v b, (p, v) ∈ proj → flagOf v = some b →
+      (b = true → p ∈ s'.includes) ∧ (b = false → p ≠ "_id" → p ∈ s'.excludes) ∧
+      (b = false → p = "_id" → s'.hideID = true) := by
+  induction proj with
+  | nil => intro _ _ _ p v b hm; simp at hm
+  | cons kv r ih =>
+    obtain ⟨k, v0⟩ := kv
+    intro s s' h p v b hm hf
+    have hkeys := projProcess_keys _ h
+    rw [projProcess_cons] at h
+    split at h
+    · cases h
+    · next s1 h1 =>
+      rcases List.mem_cons.mp hm with e | hm'
+      · cases e
+        rw [projEntry_flag sch s d k v0 b (hkeys (k, v0) (by simp)) hf] at h1
+        cases h1
+        have hle := projProcess_le _ h
+        refine ⟨fun hb => ?_, fun hb hne => ?_, fun hb he => ?_⟩
+        · subst hb; exact hle.inc.subset (by simp [flagStep])
+        · subst hb
+          exact hle.exc.subset (by simp [flagStep, hne])
+        · subst hb; subst he; exact hle.hide (by simp [flagStep])
+      · exact ih h p v b hm' hf
+
+/-- `Project` after a successful processing loop (the part of mongokit.Project after `Process`) -/
+def projectFinish (d : Doc) (st : PState) : Res Doc :=
+  if !st.includes.isEmpty && !st.excludes.isEmpty then .error .err else
+  let base : Res Doc :=
+    if !st.includes.isEmpty then
+      match Put [] ["_id"] (Get d "_id") false with
+      | .error e => .error e
+      | .ok (res, _) =>
+        let copies := (st.includes.filter fun p => !st.skip.contains p).filterMap fun p =>
+          let v := Get d p
+          if v.isMissing then none else some (p, v)
+        putAll res copies
+    else
+      .ok (st.excludes.foldl (fun acc p => (Unset acc (splitPath p)).1) d)
+  match base with
+  | .error e => .error e
+  | .ok res =>
+    match putAll res st.merge with
+    | .error e => .error e
+    | .ok res => .ok (if st.hideID then (Unset res ["_id"]).1 else res)
+
+/-- the order of checks in `Project`: first the projection document is processed entry by entry
+    (any operator error surfaces here), then the mixing check, then the copy/unset phase. -/
+theorem Project_eq (sch : SchemaEval) (d proj : Doc) :
+    Project sch d proj = match projProcess sch {} d proj with
+      | .error e => .error e
+      | .ok st => projectFinish d st := rfl
+
+theorem mix_error (sch : SchemaEval) (d proj : Doc) (pi pe : String) (vi ve : V)
+    (hi : (pi, vi) ∈ proj) (fi : flagOf vi = some true)
+    (he : (pe, ve) ∈ proj) (fe : flagOf ve = some false) (hne : pe ≠ "_id") :
+    (∀ st, projProcess sch {} d proj = .ok st → Project sch d proj = .error .err) ∧
+    (∀ e, projProcess sch {} d proj = .error e → Project sch d proj = .error e) := by
+  constructor
+  · intro st h
+    have h1 := (projProcess_registers proj h pi vi true hi fi).1 rfl
+    have h2 := (projProcess_registers proj h pe ve false he fe).2.1 rfl hne
+    rw [Project_eq, h]
+    have e1 : st.includes.isEmpty = false := by cases hh : st.includes <;> simp_all
+    have e2 : st.excludes.isEmpty = false := by cases hh : st.excludes <;> simp_all
+    simp [projectFinish, e1, e2]
+  · intro e h; rw [Project_eq, h]
+
+
+/-! ## §4 flag-only projections; exclusion results -/
+
+/-- the state after a projection consisting of flags only -/
+def flagsState (s : PState) (flags : List (String × Bool)) : PState :=
+  flags.foldl (fun s pb => flagStep s pb.1 pb.2) s
+
+/-- the flags of a flag-only projection document -/
+def flagsOf (proj : List (String × V)) : List (String × Bool) :=
+  proj.map fun kv => (kv.1, (flagOf kv.2).getD false)
+
+theorem projProcess_flags (sch : SchemaEval) (d : Doc) (proj : List (String × V))
+    (hk : ∀ kv ∈ proj, isOpKey kv.1 = false ∧ (flagOf kv.2).isSome = true) :
+    ∀ s, projProcess sch s d proj = .ok (flagsState s (flagsOf proj)) := by
+  induction proj with
+  | nil => intro s; rfl
+  | cons kv r ih =>
+    obtain ⟨k, v⟩ := kv
+    intro s
+    have h := hk (k, v) (by simp)
+    obtain ⟨b, hb⟩ := Option.isSome_iff_exists.mp h.2
+    rw [projProcess_cons, projEntry_flag sch s d k v b h.1 hb]
+    simp only [flagsOf, List.map_cons, flagsState, List.foldl_cons, hb, Option.getD_some]
+    exact ih (fun kv hkv => hk kv (by simp [hkv])) _
+
+theorem flagsState_fields (flags : List (String × Bool)) : ∀ (s : PState),
+    (flagsState s flags).includes = s.includes ++ (flags.filter (·.2)).map (·.1) ∧
+    (flagsState s flags).excludes = s.excludes ++ (flags.filter (fun pb => !pb.2 && pb.1 != "_id")).map (·.1) ∧
+    (flagsState s flags).hideID = (s.hideID || flags.any (fun pb => !pb.2 && pb.1 == "_id")) ∧
+    (flagsState s flags).merge = s.merge ∧ (flagsState s flags).skip = s.skip := by
+  induction flags with
+  | nil => intro s; simp [flagsState]
+  | cons pb r ih =>
+    obtain ⟨p, b⟩ := pb
+    intro s
+    have := ih (flagStep s p b)
+    simp only [flagsState, List.foldl_cons] at this ⊢
+    obtain ⟨h1, h2, h3, h4, h5⟩ := this
+    rw [h1, h2, h3, h4, h5]
+    cases b
+    · by_cases hp : p = "_id"
+      · simp [flagStep, hp]
+      · have : (p == "_id") = false := by simpa using hp
+        simp [flagStep, hp, this]
+    · simp [flagStep]
+
+theorem putAll_nil (res : Doc) : putAll res [] = .ok res := rfl
+
+theorem flagsOf_all_false (proj : List (String × V)) (h : ∀ kv ∈ proj, flagOf kv.2 = some false) :
+    flagsOf proj = proj.map fun kv => (kv.1, false) := by
+  simp only [flagsOf]
+  exact List.map_congr_left fun kv hkv => by rw [h kv hkv]; rfl
+
+/-- an exclusion-only projection: unset the excluded paths one after the other on (a copy of) the
+    document; `_id: 0` additionally removes `_id` at the end -/
+theorem exclusion_project (sch : SchemaEval) (d proj : Doc)
+    (hk : ∀ kv ∈ proj, isOpKey kv.1 = false ∧ flagOf kv.2 = some false) :
+    Project sch d proj = .ok
+      (let r := ((proj.map (·.1)).filter (· != "_id")).foldl (fun acc p => (Unset acc (splitPath p)).1) d
+       if proj.any (·.1 == "_id") then (Unset r ["_id"]).1 else r) := by
+  have hp := projProcess_flags sch d proj (fun kv hkv => ⟨(hk kv hkv).1, by rw [(hk kv hkv).2]; rfl⟩) {}
+  rw [flagsOf_all_false proj (fun kv hkv => (hk kv hkv).2)] at hp
+  obtain ⟨h1, h2, h3, h4, h5⟩ := flagsState_fields (proj.map fun kv => (kv.1, false)) {}
+  rw [Project_eq, hp]
+  have e1 : (flagsState {} (proj.map fun kv => (kv.1, false))).includes = [] := by
+    rw [h1]; simp
+  have e2 : (flagsState {} (proj.map fun kv => (kv.1, false))).excludes = (proj.map (·.1)).filter (· != "_id") := by
+    rw [h2]; simp [List.filter_map, Function.comp_def]
+  have e3 : (flagsState {} (proj.map fun kv => (kv.1, false))).hideID = proj.any (·.1 == "_id") := by
+    rw [h3]; simp [List.any_map, Function.comp_def]
+  have e4 : (flagsState {} (proj.map fun kv => (kv.1, false))).merge = [] := by rw [h4]
+  simp only [projectFinish, e1, e2, e3, e4, List.isEmpty_nil, Bool.not_true, Bool.false_and,
+    Bool.false_eq_true, ↓reduceIte, putAll_nil]
+
+/-- unsetting a top-level field removes the first field of that name (and nothing else) -/
+theorem Unset_single (d : Doc) (k : String) (hk : k ≠ "") : (Unset d [k]).1 = d.eraseP (·.1 == k) := by
+  have hk' : (k == "") = false := by simpa using hk
+  simp only [Unset, put, hk', Bool.false_and, Bool.false_eq_true, ↓reduceIte, fieldIndex]
+  rw [List.eraseP_eq_eraseIdx]
+  cases hfi : d.findIdx? (fun kv => kv.1 == k) with
+  | none => simp [V.isMissing]
+  | some i =>
+    obtain ⟨hlt, _, _⟩ := List.findIdx?_eq_some_iff_getElem.mp hfi
+    simp [List.getElem?_eq_getElem hlt, V.isMissing]
+
+/-- `_id` is not the empty string (a fact about string literals; by evaluation) -/
+theorem id_ne_empty : "_id" ≠ "" := by decide
+
+theorem eraseP_key_eq_filter (d : Doc) (k : String) (nd : (d.map (·.1)).Nodup) :
+    d.eraseP (·.1 == k) = d.filter (fun kv => kv.1 != k) := by
+  induction d with
+  | nil => rfl
+  | cons kv r ih =>
+    simp only [List.map_cons, List.nodup_cons] at nd
+    rw [List.eraseP_cons, List.filter_cons]
+    by_cases h : kv.1 = k
+    · have hn : ∀ x ∈ r, (x.1 != k) = true := by
+        intro x hx
+        have : x.1 ≠ k := fun e => nd.1 (by rw [h, ← e]; exact List.mem_map_of_mem hx)
+        simpa using this
+      simp [h, List.filter_eq_self.mpr hn]
+    · have : (kv.1 == k) = false := by simpa using h
+      simp [this, ih nd.2, h]
+
+theorem foldl_eraseP_eq_filter (ps : List String) : ∀ (d : Doc), (d.map (·.1)).Nodup →
+    ps.foldl (fun acc p => acc.eraseP (·.1 == p)) d = d.filter (fun kv => !ps.contains kv.1) := by
+  induction ps with
+  | nil => intro d _; simp only [List.foldl_nil]; exact (List.filter_eq_self.mpr (by simp)).symm
+  | cons p r ih =>
+    intro d nd
+    simp only [List.foldl_cons]
+    rw [eraseP_key_eq_filter d p nd, ih _ (nd.sublist ((List.filter_sublist).map _)), List.filter_filter]
+    congr 1; funext kv
+    by_cases h : kv.1 = p
+    · simp [h]
+    · have h' : (kv.1 == p) = false := by simpa using h
+      simp [h', bne, h]
+theorem foldl_unset_single (ps : List String) (h : ∀ p ∈ ps, splitPath p = [p] ∧ p ≠ "") : ∀ (d : Doc),
+    ps.foldl (fun acc p => (Unset acc (splitPath p)).1) d = ps.foldl (fun acc p => acc.eraseP (·.1 == p)) d := by
+  induction ps with
+  | nil => intro d; rfl
+  | cons p r ih =>
+    intro d
+    have hp := h p (by simp)
+    simp only [List.foldl_cons]
+    rw [hp.1, Unset_single d p hp.2]
+    exact ih (fun q hq => h q (by simp [hq])) _
+
+theorem contains_filter_ne (ks : List String) (x y : String) :
+    (ks.filter (· != y)).contains x = (ks.contains x && x != y) := by
+  by_cases hxy : x = y
+  · subst hxy
+    simp [List.mem_filter]
+  · have : (x != y) = true := by simpa using hxy
+    rw [this, Bool.and_true]
+    by_cases hm : x ∈ ks
+    · have : x ∈ ks.filter (· != y) := List.mem_filter.mpr ⟨hm, by simpa using hxy⟩
+      simp [hm, this]
+    · have : x ∉ ks.filter (· != y) := fun h => hm (List.mem_filter.mp h).1
+      simp [hm, this]
+
+/-- top-level exclusion on a document with distinct field names: exactly the fields not named in the
+    projection remain, in their stored order, with their stored values -/
+theorem exclusion_toplevel (sch : SchemaEval) (d proj : Doc)
+    (hk : ∀ kv ∈ proj, isOpKey kv.1 = false ∧ flagOf kv.2 = some false)
+    (hs : ∀ kv ∈ proj, splitPath kv.1 = [kv.1] ∧ kv.1 ≠ "")
+    (nd : (d.map (·.1)).Nodup) :
+    Project sch d proj = .ok (d.filter fun kv => !(proj.map (·.1)).contains kv.1) := by
+  rw [exclusion_project sch d proj hk]
+  simp only
+  have hps : ∀ p ∈ (proj.map (·.1)).filter (· != "_id"), splitPath p = [p] ∧ p ≠ "" := by
+    intro p hp
+    obtain ⟨kv, hkv, rfl⟩ := List.mem_map.mp (List.mem_filter.mp hp).1
+    exact hs kv hkv
+  rw [foldl_unset_single _ hps, foldl_eraseP_eq_filter _ d nd]
+  have nd' : ((d.filter fun kv => !((proj.map (·.1)).filter (· != "_id")).contains kv.1).map (·.1)).Nodup :=
+    nd.sublist ((List.filter_sublist).map _)
+  congr 1
+  split
+  · next hany =>
+    rw [Unset_single _ _ id_ne_empty, eraseP_key_eq_filter _ _ nd', List.filter_filter]
+    apply List.filter_congr
+    intro kv _
+    have hmem : (proj.map (·.1)).contains "_id" = true := by
+      obtain ⟨x, hx, e⟩ := List.any_eq_true.mp hany
+      exact List.contains_iff_mem.mpr (List.mem_map.mpr ⟨x, hx, by simpa using e⟩)
+    rw [contains_filter_ne]
+    by_cases e : kv.1 = "_id"
+    · rw [e, hmem]; simp
+    · have : (kv.1 != "_id") = true := by simpa using e
+      rw [this]; simp
+  · next hany =>
+    apply List.filter_congr
+    intro kv _
+    have hnm : (proj.map (·.1)).contains "_id" = false := by
+      cases hc : (proj.map (·.1)).contains "_id" with
+      | false => rfl
+      | true =>
+        obtain ⟨x, hx, e⟩ := List.mem_map.mp (List.contains_iff_mem.mp hc)
+        exact absurd (List.any_eq_true.mpr ⟨x, hx, by simpa using e⟩) hany
+    rw [contains_filter_ne]
+    by_cases e : kv.1 = "_id"
+    · rw [e, hnm]; simp
+    · have : (kv.1 != "_id") = true := by simpa using e
+      rw [this]; simp
 
 end Lungo
